@@ -12,6 +12,10 @@ pub open spec fn tz_post(v: int, r: Option<usize>) -> bool {
     (v == 0 ==> r is None) && (v != 0 ==> r is Some && v % pow2(r.unwrap() as int) == 0)
 }
 /// resource: the value has at most n >= 2 words and a buffer of twice n * exp words can be allocated
+// crate::error::panic_allocate_too_much: proved unreachable under the resource precondition `pow_fits`
+#[verifier::external_body]
+pub fn panic_allocate_too_much() -> ! requires false { unimplemented!() }
+
 pub open spec fn pow_fits(v: int, exp: int) -> bool {
     exists|n: int| n >= 2 && #[trigger] pw(n) > v && 2 * (n * exp) <= max_capacity()
 }
